@@ -176,6 +176,9 @@ def iter_state_machine(run, ctx, fn_suffix, label):
                         mm = H.pat_match("Some({x})", ev.a)
                         if mm:
                             x = mm.group("x")
+                    if ev.kind == "arm" and ev.a == LM:
+                        mm = H.pat_match("Some({x})", ev.b)
+                        x = mm.group("x") if mm else None
                 if x is not None:
                     pf = S.PathFacts(pre)
                     if pf.proves("Lt", x, POS):
@@ -211,6 +214,7 @@ def next_utf8_rule(run, ctx):
             continue
         n += 1
         inb = any(ev.kind == "arm" and ev.b.startswith("Some(") for ev in p.events) or \
+            any(ev.kind == "letcond" and ev.c and ev.a.startswith("Some(") and ".get(%s)" % I in (ev.b or "") for ev in p.events) or \
             any(ev.kind == "cond" and ev.b and H.pat_match("(%s < len(%s))" % (I, TEXT), ev.a) for ev in p.events)
         # the result node
         node = p.valnode
@@ -799,7 +803,7 @@ def own_split(run, ctx):
         f = {x["name"]: H.canon(x["e"]) for x in nd["fields"]}
         if not H.pat_match("self.split({t})", f.get("splits", "")) or f.get("limit") != "limit":
             run.violation(fam, label, "ctor/SplitN", H.where(nd), "SplitN must be {splits: self.split(target), limit} (found %s)" % f)
-    run.floor(fam, label, "src/lib.rs", n, 3, "writes to Split.next_start")
+    run.floor(fam, label, "src/lib.rs", n, 2, "writes to Split.next_start")
     run.ok(fam, label, "src/lib.rs", n + len(ctors) + len(sn), "next_start written only by the two split iterators; constructors start at 0 over find_iter(target)")
 
 
